@@ -42,7 +42,9 @@ def num_value(x):
             return ['n', fr.numerator, fr.denominator]
         # a folded float such as 0.3333333333333333: small rational reproducing the double
         fr2 = Fraction(x).limit_denominator(10000)
-        if fr2 != 0 and abs(float(fr2) - x) <= 1e-12 * abs(x) and abs(fr2.numerator) <= LIM:
+        # ... reproducing it EXACTLY: 0.7000000000000001 is not 7/10 (a value that is merely close is carried as text and
+        # never equals a rational of the specification; valuations that depend on it are skipped, not judged)
+        if fr2 != 0 and float(fr2) == x and abs(fr2.numerator) <= LIM:
             return ['n', fr2.numerator, fr2.denominator]
         return ['x', repr(x)]
     if isinstance(x, complex):
